@@ -57,6 +57,25 @@ func report(r *runner.Run, fl *failure, replay any, recheck func() bool) {
 	r.Violation(fl.Key, fl.Msg, replay, recheck)
 }
 
+// sampleBook keeps, per class, the example with the smallest enumeration index
+// (so the evidence samples do not depend on goroutine scheduling).
+type sampleBook struct {
+	mu  sync.Mutex
+	idx map[string]int
+	val map[string]any
+}
+
+var samples = &sampleBook{idx: map[string]int{}, val: map[string]any{}}
+
+func (b *sampleBook) keep(class string, idx int, v func() any) {
+	b.mu.Lock()
+	defer b.mu.Unlock()
+	if old, ok := b.idx[class]; ok && old <= idx {
+		return
+	}
+	b.idx[class], b.val[class] = idx, v()
+}
+
 // tieBook remembers, per selection mode, which end of the id order won a tie.
 type tieBook struct {
 	mu   sync.Mutex
@@ -173,6 +192,11 @@ func TestCheck(t *testing.T) {
 	timed("outbound", func() bool { return outbound(r, deadline, workers, ties) })
 	stopProf()
 	r.Set("phase_wall_s", phases)
+	for _, class := range []string{"out:signed-after-tie", "out:not-sent", "in:202", "in:401", "e2e:pushed", "e2e:not-pushed"} {
+		if v, ok := samples.val[class]; ok {
+			r.Sample(v)
+		}
+	}
 	if !done {
 		r.NotExhaustive("wall budget reached before the enumeration was complete")
 	}
@@ -198,7 +222,7 @@ func TestCheck(t *testing.T) {
 	r.Set("rule", "outbound: every ordered tuple of <=3 secret versions (id k1<k2<k3 by position) with valid_from in {t0,t1,t2} x valid_until in {none,t1,t2,t3} (>from) "+
 		"x every order of the `sign hmac secret_ref` lines x secret_selection {absent,newest_valid,oldest_valid} x {all values loadable, version i not loadable at signing} "+
 		"x clock in {t_i, t_i+-1ns, t_i+-1s : i=0..3} x request shape (2 header-name routes x 8 URL paths x 3 methods x 3 bodies x pre-existing signing headers; "+
-		"tuples/tiers using the reduced shape list are counted in out_slim_units), each one real Deliver call on the configuration compiled from DSL text and judged on the "+
+		"the evidence keys out_configs_shape_level_{2,1,0} count the (tuple, order, selection) configurations crossed with all 288 / a 16 / a 2 element shape list), each one real Deliver call on the configuration compiled from DSL text and judged on the "+
 		"HTTP/1.1 wire form the target receives; inbound: every such tuple x clock in {t_i, t_i+-1s} x signed timestamp in the same 12 instants x 2 routes x signer "+
 		"{each version, inline secret, unconfigured secret} through the ingress handler in a synctest bubble; end-to-end: ingress->queue->running dispatcher->deliverer(time.Now) "+
 		"per tuple/order/selection at all 20 clock instants. distinct_nontrivial counts distinct (window pattern, clock position, selection/route, verdict) classes.")
@@ -337,9 +361,15 @@ func outbound(r *runner.Run, deadline time.Time, workers int, ties *tieBook) boo
 					}
 					if permIdx == 0 && si == 0 {
 						r.Distinct(fmt.Sprintf("out|%s|%s|%s|u%d|%s", pattern(u.Windows), clk.Label, v.Sel, u.Unload, pickName(pick)))
-						if ui%211 == 0 && ci == 7 && v.Sel == "oldest_valid" {
-							r.Sample(map[string]any{"part": "outbound", "windows": pattern(u.Windows), "selection": v.Sel, "unloadable": u.Unload, "clock": clk.Label,
-								"url": targetOrigin + urlPaths[sh.Path].Raw, "verdict": pickName(pick)})
+						if tie != noTie || pick == pickNone {
+							class := "out:signed-after-tie"
+							if pick == pickNone {
+								class = "out:not-sent"
+							}
+							samples.keep(class, ui*1000+vi*20+ci, func() any {
+								return map[string]any{"part": "outbound", "windows": pattern(u.Windows), "secret_ref_order": v.Order, "selection": v.Sel, "unloadable": u.Unload, "clock": clk.Label,
+									"url": targetOrigin + urlPaths[sh.Path].Raw, "verdict": pickName(pick)}
+							})
 						}
 					}
 				}
@@ -479,12 +509,14 @@ func inbound(t *testing.T, r *runner.Run, deadline time.Time, workers int) bool 
 					rel = "clock!=ts"
 				}
 				r.Distinct(fmt.Sprintf("in|%s|%s|%s|r%d|%d", set[x.Case.Signer], insts[x.Case.Ts].Label, rel, x.Case.Route, x.Status))
+				if rel == "clock!=ts" && len(set) > 1 {
+					x := x
+					samples.keep(fmt.Sprintf("in:%d", x.Status), i, func() any {
+						return map[string]any{"part": "inbound", "windows": pattern(set), "route": inRoutes[x.Case.Route].Route, "signer": x.Case.signerName(),
+							"signed_ts": insts[x.Case.Ts].Label, "clock": insts[x.Case.Clock].Label, "status": x.Status}
+					})
+				}
 			}
-		}
-		if i%131 == 0 && len(res) > 0 {
-			x := res[len(res)/2]
-			r.Sample(map[string]any{"part": "inbound", "windows": pattern(set), "route": inRoutes[x.Case.Route].Route, "signer": x.Case.signerName(),
-				"signed_ts": insts[x.Case.Ts].Label, "clock": insts[x.Case.Clock].Label, "status": x.Status})
 		}
 		r.Add("evaluations", int64(len(res)))
 		r.Add("in_evaluations", int64(len(res)))
@@ -537,13 +569,19 @@ func endToEnd(t *testing.T, r *runner.Run, deadline time.Time, workers int, ties
 			if len(o.Got) == 0 {
 				silent++
 			}
+			if len(set) > 1 && o.Route == 1 {
+				o := o
+				class := "e2e:pushed"
+				if len(o.Got) == 0 {
+					class = "e2e:not-pushed"
+				}
+				samples.keep(class, i, func() any {
+					return map[string]any{"part": "e2e", "windows": pattern(set), "secret_ref_order": spec.Order, "selection": spec.Sel, "clock": o.Clock.Label, "route": routeOf(o.Var, o.Route), "push_requests": len(o.Got), "verdict": pickName(pick)}
+				})
+			}
 			if o.Route == 0 {
 				r.Distinct(fmt.Sprintf("e2e|%s|%s|%s|%s", pattern(spec.Windows), o.Clock.Label, spec.Sel, pickName(pick)))
 			}
-		}
-		if i%23 == 0 && len(obs) > 14 {
-			o := obs[len(obs)/2]
-			r.Sample(map[string]any{"part": "e2e", "windows": pattern(set), "order": vars[o.Var].Order, "selection": vars[o.Var].Sel, "clock": o.Clock.Label, "route": routeOf(o.Var, o.Route), "push_requests": len(o.Got)})
 		}
 		r.Add("evaluations", int64(len(obs)))
 		r.Add("e2e_evaluations", int64(len(obs)))
